@@ -328,6 +328,16 @@ gen_c14 (gen_t *g, rng_t *r, scenario_t *sc, int tier)
 	    gen_composite (g, 1, src, mk, dst);
 	    sc->ops[sc->n_ops - 1] = sc->ops[sc->n_ops - 3];       /* the very same request */
 	}
+	else if (roll < 36)
+	{
+	    /* the same image gets a clip of several boxes, is used, gets another clip (often of
+	     * fewer boxes, which fits the storage of the first) and is used again */
+	    int img = rng_chance (r, 1, 2) ? dst : src;
+	    gen_clip (g, img, 0);
+	    gen_composite (g, 1, src, -1, dst);
+	    gen_clip (g, img, 0);
+	    gen_composite (g, 1, src, -1, dst);
+	}
 	else if (roll < 42) gen_transform (g, any, TC_ANY);
 	else if (roll < 52) gen_filter (g, any, 1);
 	else if (roll < 60) gen_repeat (g, any);
